@@ -2,7 +2,7 @@ import KoordVerif.Proofs.C03Base
 /-
 C03 — helper development for the quota-update events that change meta: lookups / parent chains under a
 group-wise rewrite, the tree reset (`resetAll`) in closed form and its invariant preservation under C01's
-accounting consistency (`TreeConsistent`), `updateQuotaInfoFromRemote`.  Property theorems: `Props/C03.lean`.
+accounting consistency (`TreeConsistent`), `updateQuotaInfoFromRemote`, and re-parenting (`reparent`) under `ReparentOK`.  Property theorems: `Props/C03.lean`.
 -/
 namespace KoordVerif.C03
 
@@ -260,5 +260,354 @@ theorem quotaMeta_inv (cp : Bool) (s : State) (n : Nat) (ip l : Bool) (mx mn : R
       have := hI.npLeMin g hg hc d hd m0 hm0
       omega
     · simp only [h, if_false] at hm ⊢; exact hI.npLeMin g hg hc d hd m hm
+
+/-! ### re-parenting (`updateQuotaNoLockWhenParentChange`) -/
+
+/-- the groups `deleteQuotaNoLock` takes the moved usage from: the old parent's path, looked up after the moved
+    group has left `quotaInfoMap`. -/
+def oldChain (s : State) (old : Quota) : List Nat :=
+  pathNames ({ s with quotas := s.quotas.filter fun g => g.name != old.name } : State) old.parent
+
+/-- the moved group's path in the rebuilt tree (itself, the new parent, …). -/
+def newChain (s : State) (old : Quota) (parent : Nat) (ip l : Bool) (mx mn : RL) : List Nat :=
+  pathNames (quotaAdd (deleteQuota s old.name) old.name parent ip l mx mn) old.name
+
+/-- what an old ancestor shows once the moved usage has been taken out. -/
+def afterDelete (s : State) (old : Quota) (g : Quota) (d : Nat) : Int × Int :=
+  if g.name ∈ oldChain s old then (clamp0 (g.used d - old.used d), clamp0 (g.npUsed d - old.npUsed d))
+  else (g.used d, g.npUsed d)
+
+/-- a group-wise rewrite that is, on the declared dimensions, "add (δ, nδ) on the groups named in `C`". -/
+structure DeltaOn (D : Nat) (C : List Nat) (δ nδ : Nat → Int) (f : Quota → Quota) : Prop where
+  name : ∀ g, (f g).name = g.name
+  parent : ∀ g, (f g).parent = g.parent
+  max : ∀ g, (f g).max = g.max
+  min : ∀ g, (f g).min = g.min
+  nn : ∀ g, (∀ d, 0 ≤ g.used d ∧ 0 ≤ g.npUsed d) → ∀ d, 0 ≤ (f g).used d ∧ 0 ≤ (f g).npUsed d
+  used : ∀ g d, d < D → 0 ≤ g.used d → (f g).used d = if g.name ∈ C then clamp0 (g.used d + δ d) else g.used d
+  np : ∀ g d, d < D → 0 ≤ g.npUsed d → (f g).npUsed d = if g.name ∈ C then clamp0 (g.npUsed d + nδ d) else g.npUsed d
+
+theorem allZero_iff (D : Nat) (a : Nat → Int) : allZero D a = true ↔ ∀ d, d < D → a d = 0 := by
+  unfold allZero
+  rw [List.all_eq_true]
+  constructor
+  · intro h d hd; simpa using h d (List.mem_range.mpr hd)
+  · intro h d hd; simpa using h d (List.mem_range.mp hd)
+
+/-- "`updateGroupDeltaUsedNoLock` unless both lists are zero", as a `DeltaOn`. -/
+theorem optDelta (st : State) (C : List Nat) (self : Option Nat) (δ nδ : Nat → Int) (skip : Bool)
+    (hskip : skip = true → ∀ d, d < st.dims → δ d = 0 ∧ nδ d = 0) :
+    ∃ f, (if skip then st else { st with quotas := applyDelta st C self δ nδ }) = { st with quotas := st.quotas.map f } ∧
+      DeltaOn st.dims C δ nδ f := by
+  cases hs : skip with
+  | true =>
+    refine ⟨id, by simp, ⟨fun _ => rfl, fun _ => rfl, fun _ => rfl, fun _ => rfl, fun _ h => h, ?_, ?_⟩⟩
+    · intro g d hd hg
+      have := (hskip hs d hd).1
+      simp only [id, this, Int.add_zero, clamp0_of_nonneg hg, ite_self]
+    · intro g d hd hg
+      have := (hskip hs d hd).2
+      simp only [id, this, Int.add_zero, clamp0_of_nonneg hg, ite_self]
+  | false =>
+    refine ⟨fun g => if g.name ∈ C then addUsed g δ nδ (self == some g.name) else g, by simp [applyDelta], ?_⟩
+    refine ⟨?_, ?_, ?_, ?_, ?_, ?_, ?_⟩
+    · intro g; by_cases h : g.name ∈ C <;> simp [h, addUsed]
+    · intro g; by_cases h : g.name ∈ C <;> simp [h, addUsed]
+    · intro g; by_cases h : g.name ∈ C <;> simp [h, addUsed]
+    · intro g; by_cases h : g.name ∈ C <;> simp [h, addUsed]
+    · intro g hg d
+      by_cases h : g.name ∈ C
+      · simp only [h, if_true, addUsed]; exact ⟨clamp0_nonneg _, clamp0_nonneg _⟩
+      · simp only [h, if_false]; exact hg d
+    · intro g d _ _; by_cases h : g.name ∈ C <;> simp [h, addUsed]
+    · intro g d _ _; by_cases h : g.name ∈ C <;> simp [h, addUsed]
+
+/-- what the closed loop needs from a re-parenting (moving a subtree is not an admission).  All clauses are decidable
+    statements about the state before the move; the harness generates, in the closed-loop streams, only moves for
+    which its own books say so.  `self` and `below` are C01's accounting consistency for the moved group. -/
+structure ReparentOK (cp : Bool) (s : State) (old : Quota) (parent : Nat) (ip l : Bool) (mx mn : RL) : Prop where
+  /-- the moved group's own part is within its total -/
+  self : ∀ d, 0 ≤ old.selfUsed d ∧ old.selfUsed d ≤ old.used d ∧ 0 ≤ old.selfNp d ∧ old.selfNp d ≤ old.npUsed d
+  /-- its usage is contained in every old ancestor's -/
+  below : ∀ g ∈ s.quotas, g.name ∈ oldChain s old → ∀ d, d < s.dims →
+            old.used d ≤ g.used d ∧ old.npUsed d ≤ g.npUsed d
+  /-- parent checking on: the moved usage fits under every ancestor that is new -/
+  fits : cp = true → ∀ g ∈ s.quotas, g.name ≠ old.name → g.name ∈ newChain s old parent ip l mx mn →
+            g.name ∉ oldChain s old → ∀ d, d < s.dims → ∀ m, g.max d = some m → g.used d + old.used d ≤ m
+  /-- a group left without child groups shows, after the subtraction, usage within max and min -/
+  exLeaf : ∀ g ∈ s.quotas, g.name ≠ old.name → ¬ IsLeafL s.quotas g.name →
+            IsLeafL (reparent s old parent ip l mx mn).quotas g.name → ∀ d, d < s.dims →
+              (∀ m, g.max d = some m → (afterDelete s old g d).1 ≤ m) ∧
+              (∀ m, g.min d = some m → (afterDelete s old g d).2 ≤ m)
+
+theorem two_adds (v1 su ou : Int) (b : Bool) (h1 : 0 ≤ v1) (h2 : 0 ≤ su) (h3 : su ≤ ou) :
+    clamp0 (clamp0 (v1 + su) + (if b then ou - su else 0)) ≤ v1 + ou := by
+  have e1 : clamp0 (v1 + su) = v1 + su := clamp0_of_nonneg (by omega)
+  rw [e1]
+  cases b with
+  | false =>
+    simp only [Bool.false_eq_true, if_false, Int.add_zero]
+    rw [clamp0_of_nonneg (by omega)]; omega
+  | true =>
+    simp only [if_true]
+    rw [clamp0_of_nonneg (by omega)]; omega
+
+theorem clamp0_sub_le (u x : Int) (hu : 0 ≤ u) (hx : 0 ≤ x) : clamp0 (u - x) ≤ u := by
+  unfold clamp0; split <;> omega
+
+theorem reparent_inv (cp : Bool) (s : State) (old : Quota) (parent : Nat) (ip l : Bool) (mx mn : RL)
+    (hq : findQ s.quotas old.name = some old) (hn : old.name ≠ rootName)
+    (hnl : NotLowered old.max mx ∧ NotLowered old.min mn)
+    (hR : ReparentOK cp s old parent ip l mx mn) (hI : Inv cp s) :
+    Inv cp (reparent s old parent ip l mx mn) := by
+  have hexLeaf := hR.exLeaf
+  -- step 1: delete
+  let s1a : State := { s with quotas := s.quotas.filter fun g => g.name != old.name }
+  have hold := findQ_some hq
+  have hou : ∀ d, 0 ≤ old.used d ∧ 0 ≤ old.npUsed d := hI.nonneg old hold.1
+  rcases optDelta s1a (oldChain s old) none (fun d => -(old.used d)) (fun d => -(old.npUsed d))
+      (allZero s.dims old.used && allZero s.dims old.npUsed)
+      (by
+        intro h d hd
+        simp only [Bool.and_eq_true, allZero_iff] at h
+        exact ⟨by rw [h.1 d hd]; rfl, by rw [h.2 d hd]; rfl⟩) with ⟨fd, hfd, hDd⟩
+  have hdel : deleteQuota s old.name = { s1a with quotas := s1a.quotas.map fd } := by
+    unfold deleteQuota
+    simp only [hq]
+    exact hfd
+  -- step 2: re-create
+  let nq : Quota := { name := old.name, parent := parent, isParent := ip, lent := l, max := mx, min := mn,
+                      runtime := RL.empty, used := fun _ => 0, npUsed := fun _ => 0,
+                      selfUsed := fun _ => 0, selfNp := fun _ => 0 }
+  let s2 : State := { s1a with quotas := s1a.quotas.map fd ++ [nq] }
+  have hs2 : quotaAdd (deleteQuota s old.name) old.name parent ip l mx mn = s2 := by
+    rw [hdel]; rfl
+  have hNC : newChain s old parent ip l mx mn = pathNames s2 old.name := by
+    unfold newChain; rw [hs2]
+  -- step 3: own part, self index
+  rcases optDelta s2 (pathNames s2 old.name) (some old.name) old.selfUsed old.selfNp
+      (allZero s.dims old.selfUsed && allZero s.dims old.selfNp)
+      (by
+        intro h d hd
+        simp only [Bool.and_eq_true, allZero_iff] at h
+        exact ⟨h.1 d hd, h.2 d hd⟩) with ⟨f3, hf3, hD3⟩
+  let s3 : State := { s2 with quotas := s2.quotas.map f3 }
+  have hP3 : pathNames s3 old.name = pathNames s2 old.name := pathNames_map s2 f3 s2.pods hD3.name hD3.parent _
+  -- step 4: children's part
+  let δ4 : Nat → Int := fun d => if old.isParent then old.used d - old.selfUsed d else 0
+  let n4 : Nat → Int := fun d => if old.isParent then old.npUsed d - old.selfNp d else 0
+  rcases optDelta s3 (pathNames s2 old.name) none δ4 n4
+      (!(old.isParent && !(allZero s.dims (fun d => old.used d - old.selfUsed d) &&
+          allZero s.dims (fun d => old.npUsed d - old.selfNp d))))
+      (by
+        intro h d hd
+        cases hp : old.isParent with
+        | false => simp [δ4, n4, hp]
+        | true =>
+          simp only [hp, Bool.true_and, Bool.not_not, Bool.and_eq_true, allZero_iff] at h
+          simp only [δ4, n4, hp, if_true]
+          exact ⟨h.1 d hd, h.2 d hd⟩) with ⟨f4, hf4, hD4⟩
+  have hfinal : reparent s old parent ip l mx mn = { s3 with quotas := s3.quotas.map f4 } := by
+    unfold reparent
+    simp only [hs2]
+    have e3 : (if (allZero s.dims old.selfUsed && allZero s.dims old.selfNp) = true then s2
+        else { s2 with quotas := applyDelta s2 (pathNames s2 old.name) (some old.name) old.selfUsed old.selfNp }) = s3 := hf3
+    rw [e3, hP3]
+    rw [← hf4]
+    cases hp : old.isParent with
+    | false => simp
+    | true =>
+      have e1 : δ4 = fun d => old.used d - old.selfUsed d := by funext d; simp [δ4, hp]
+      have e2 : n4 = fun d => old.npUsed d - old.selfNp d := by funext d; simp [n4, hp]
+      rw [e1, e2]
+      cases (allZero s.dims (fun d => old.used d - old.selfUsed d) &&
+          allZero s.dims (fun d => old.npUsed d - old.selfNp d)) <;> simp
+  -- the composed rewrite
+  have hQ : (reparent s old parent ip l mx mn).quotas = (s1a.quotas.map fd ++ [nq]).map (f4 ∘ f3) := by
+    rw [hfinal]; simp [s3, s2, List.map_map]
+  have hname : ∀ x, ((f4 ∘ f3) x).name = x.name := fun x => by show (f4 (f3 x)).name = _; rw [hD4.name, hD3.name]
+  have hpar : ∀ x, ((f4 ∘ f3) x).parent = x.parent := fun x => by show (f4 (f3 x)).parent = _; rw [hD4.parent, hD3.parent]
+  have hmaxh : ∀ x, ((f4 ∘ f3) x).max = x.max := fun x => by show (f4 (f3 x)).max = _; rw [hD4.max, hD3.max]
+  have hminh : ∀ x, ((f4 ∘ f3) x).min = x.min := fun x => by show (f4 (f3 x)).min = _; rw [hD4.min, hD3.min]
+  have hdims : (reparent s old parent ip l mx mn).dims = s.dims := by rw [hfinal]
+  have hpods : (reparent s old parent ip l mx mn).pods = s.pods := by rw [hfinal]
+  -- members of the rebuilt list
+  have hmemQ : ∀ g' ∈ (reparent s old parent ip l mx mn).quotas,
+      (∃ g ∈ s.quotas, g.name ≠ old.name ∧ g' = f4 (f3 (fd g))) ∨ g' = f4 (f3 nq) := by
+    intro g' hg'
+    rw [hQ] at hg'
+    rcases List.mem_map.mp hg' with ⟨x, hx, rfl⟩
+    rcases List.mem_append.mp hx with h | h
+    · rcases List.mem_map.mp h with ⟨g, hg, rfl⟩
+      have := List.mem_filter.mp hg
+      exact Or.inl ⟨g, this.1, by simpa using this.2, rfl⟩
+    · rw [List.mem_singleton.mp h]; exact Or.inr rfl
+  -- non-negativity through the three rewrites
+  have hnnd : ∀ g ∈ s.quotas, ∀ d, 0 ≤ (fd g).used d ∧ 0 ≤ (fd g).npUsed d :=
+    fun g hg => hDd.nn g (hI.nonneg g hg)
+  have hnnq : ∀ d, 0 ≤ nq.used d ∧ 0 ≤ nq.npUsed d := fun _ => ⟨Int.le_refl _, Int.le_refl _⟩
+  have hnn34 : ∀ x, (∀ d, 0 ≤ x.used d ∧ 0 ≤ x.npUsed d) → ∀ d, 0 ≤ (f4 (f3 x)).used d ∧ 0 ≤ (f4 (f3 x)).npUsed d :=
+    fun x hx => hD4.nn _ (hD3.nn x hx)
+  -- leaf-ness in the rebuilt tree
+  have hleafQ : ∀ k, IsLeafL (reparent s old parent ip l mx mn).quotas k ↔ IsLeafL s2.quotas k := by
+    intro k; rw [hQ]; exact isLeafL_map _ _ hname hpar k
+  -- a leaf of the rebuilt tree other than the moved group is not on the moved group's new path
+  have hleafNC : ∀ k, k ≠ old.name → IsLeafL s2.quotas k → k ∉ pathNames s2 old.name := by
+    intro k hk hleaf hmem
+    unfold pathNames at hmem
+    rcases List.mem_map.mp hmem with ⟨x, hx, hxn⟩
+    exact hk (chain_leaf k hleaf _ _ x hx hxn).symm
+  -- the moved group is a leaf afterwards only if it was one before
+  have hleafN : IsLeafL s2.quotas old.name → IsLeafL s.quotas old.name := by
+    intro hleaf h hh hp
+    by_cases hhn : h.name = old.name
+    · exact hhn
+    · have hm : fd h ∈ s2.quotas := by
+        apply List.mem_append_left
+        apply List.mem_map_of_mem
+        exact List.mem_filter.mpr ⟨hh, by simpa using hhn⟩
+      have := hleaf (fd h) hm (by rw [hDd.parent]; exact hp)
+      rw [hDd.name] at this; exact this
+  -- values on the declared dimensions
+  have hval : ∀ g ∈ s.quotas, ∀ d, d < s.dims →
+      (fd g).used d = (afterDelete s old g d).1 ∧ (fd g).npUsed d = (afterDelete s old g d).2 := by
+    intro g hg d hd
+    have h1 := hDd.used g d hd (hI.nonneg g hg d).1
+    have h2 := hDd.np g d hd (hI.nonneg g hg d).2
+    unfold afterDelete
+    by_cases hc : g.name ∈ oldChain s old
+    · simp only [hc, if_true] at h1 h2 ⊢
+      exact ⟨by rw [h1, Int.sub_eq_add_neg], by rw [h2, Int.sub_eq_add_neg]⟩
+    · simp only [hc, if_false] at h1 h2 ⊢
+      exact ⟨h1, h2⟩
+  have hadLe : ∀ g ∈ s.quotas, ∀ d, (afterDelete s old g d).1 ≤ g.used d ∧ (afterDelete s old g d).2 ≤ g.npUsed d := by
+    intro g hg d
+    unfold afterDelete
+    have := hI.nonneg g hg d
+    have := hou d
+    split
+    · exact ⟨clamp0_sub_le _ _ (by omega) (by omega), clamp0_sub_le _ _ (by omega) (by omega)⟩
+    · exact ⟨Int.le_refl _, Int.le_refl _⟩
+  -- a group off the new path keeps what the deletion left
+  have hoff : ∀ x, x.name ∉ pathNames s2 old.name → (∀ d, 0 ≤ x.used d ∧ 0 ≤ x.npUsed d) → ∀ d, d < s.dims →
+      (f4 (f3 x)).used d = x.used d ∧ (f4 (f3 x)).npUsed d = x.npUsed d := by
+    intro x hx hxnn d hd
+    have a1 := hD3.used x d hd (hxnn d).1
+    have a2 := hD3.np x d hd (hxnn d).2
+    simp only [hx, if_false] at a1 a2
+    have hx' : (f3 x).name ∉ pathNames s2 old.name := by rw [hD3.name]; exact hx
+    have b1 := hD4.used (f3 x) d hd (by rw [a1]; exact (hxnn d).1)
+    have b2 := hD4.np (f3 x) d hd (by rw [a2]; exact (hxnn d).2)
+    simp only [hx', if_false] at b1 b2
+    exact ⟨by rw [b1, a1], by rw [b2, a2]⟩
+  -- a group on the new path gains at most the moved usage
+  have hon : ∀ x, (∀ d, 0 ≤ x.used d ∧ 0 ≤ x.npUsed d) → ∀ d, d < s.dims →
+      (f4 (f3 x)).used d ≤ x.used d + old.used d ∧ (f4 (f3 x)).npUsed d ≤ x.npUsed d + old.npUsed d := by
+    intro x hxnn d hd
+    have hs := hR.self d
+    by_cases hx : x.name ∈ pathNames s2 old.name
+    · have a1 := hD3.used x d hd (hxnn d).1
+      have a2 := hD3.np x d hd (hxnn d).2
+      simp only [hx, if_true] at a1 a2
+      have hx' : (f3 x).name ∈ pathNames s2 old.name := by rw [hD3.name]; exact hx
+      have b1 := hD4.used (f3 x) d hd (by rw [a1]; exact clamp0_nonneg _)
+      have b2 := hD4.np (f3 x) d hd (by rw [a2]; exact clamp0_nonneg _)
+      simp only [hx', if_true] at b1 b2
+      rw [b1, b2, a1, a2]
+      exact ⟨two_adds _ _ _ old.isParent (hxnn d).1 hs.1 hs.2.1, two_adds _ _ _ old.isParent (hxnn d).2 hs.2.2.1 hs.2.2.2⟩
+    · have := hoff x hx hxnn d hd
+      have := hou d
+      omega
+  refine ⟨?_, ?_, ?_, ?_, ?_, ?_⟩
+  · -- names stay unique
+    show ((reparent s old parent ip l mx mn).quotas.map (·.name)).Nodup
+    rw [hQ, List.map_map]
+    have e : ((s1a.quotas.map fd ++ [nq]).map ((·.name) ∘ (f4 ∘ f3))) = (s1a.quotas.map (·.name)) ++ [old.name] := by
+      rw [List.map_append, List.map_map]
+      congr 1
+      · apply List.map_congr_left; intro g _; show (f4 (f3 (fd g))).name = g.name; rw [hD4.name, hD3.name, hDd.name]
+      · show [(f4 (f3 nq)).name] = [old.name]; rw [hD4.name, hD3.name]
+    rw [e, List.nodup_append]
+    refine ⟨(List.filter_sublist.map _).nodup hI.nodup, by simp, ?_⟩
+    intro a ha b hb
+    rw [List.mem_singleton.mp hb]
+    rcases List.mem_map.mp ha with ⟨g, hg, rfl⟩
+    have := (List.mem_filter.mp hg).2
+    simpa using this
+  · intro g' hg' hr d
+    rcases hmemQ g' hg' with ⟨g, hg, hgn, rfl⟩ | rfl
+    · rw [hD4.name, hD3.name, hDd.name] at hr
+      rw [hD4.max, hD3.max, hDd.max]; exact hI.rootMax g hg hr d
+    · rw [hD4.name, hD3.name] at hr; exact absurd hr hn
+  · intro g' hg' d
+    rcases hmemQ g' hg' with ⟨g, hg, hgn, rfl⟩ | rfl
+    · exact hnn34 _ (hnnd g hg) d
+    · exact hnn34 _ hnnq d
+  · rw [hpods]; exact hI.reqNonneg
+  · -- used ≤ max
+    intro g' hg' hc d hd m hm
+    rw [hdims] at hd
+    rcases hmemQ g' hg' with ⟨g, hg, hgn, rfl⟩ | rfl
+    · rw [hD4.max, hD3.max, hDd.max] at hm
+      rw [hD4.name, hD3.name, hDd.name] at hc
+      have hv := (hval g hg d hd).1
+      have hle := (hadLe g hg d).1
+      rcases hc with hcp | hleaf
+      · have hu := hI.usedLeMax g hg (Or.inl hcp) d hd m hm
+        by_cases hx : g.name ∈ pathNames s2 old.name
+        · have h1 := (hon (fd g) (hnnd g hg) d hd).1
+          by_cases ho : g.name ∈ oldChain s old
+          · have hb := (hR.below g hg ho d hd).1
+            have : (afterDelete s old g d).1 = g.used d - old.used d := by
+              unfold afterDelete; simp only [ho, if_true]; exact clamp0_of_nonneg (by omega)
+            omega
+          · have hf := hR.fits hcp g hg hgn (by rw [hNC]; exact hx) ho d hd m hm
+            have : (afterDelete s old g d).1 = g.used d := by unfold afterDelete; simp only [ho, if_false]
+            omega
+        · have h1 := (hoff (fd g) (by rw [hDd.name]; exact hx) (hnnd g hg) d hd).1
+          omega
+      · have hleaf2 := (hleafQ g.name).mp hleaf
+        have hx := hleafNC g.name hgn hleaf2
+        have h1 := (hoff (fd g) (by rw [hDd.name]; exact hx) (hnnd g hg) d hd).1
+        by_cases hb : IsLeafL s.quotas g.name
+        · have hu := hI.usedLeMax g hg (Or.inr hb) d hd m hm
+          omega
+        · have := (hexLeaf g hg hgn hb hleaf d hd).1 m hm
+          omega
+    · rw [hD4.max, hD3.max] at hm
+      rw [hD4.name, hD3.name] at hc
+      have hc' : cp = true ∨ IsLeafL s.quotas old.name := by
+        rcases hc with h | h
+        · exact Or.inl h
+        · exact Or.inr (hleafN ((hleafQ old.name).mp h))
+      rcases hnl.1 d m hm with ⟨m0, hm0, hle⟩
+      have hu := hI.usedLeMax old hold.1 hc' d hd m0 hm0
+      have h1 := (hon nq hnnq d hd).1
+      have : nq.used d = 0 := rfl
+      omega
+  · -- non-preemptible used ≤ min
+    intro g' hg' hleaf d hd m hm
+    rw [hdims] at hd
+    rcases hmemQ g' hg' with ⟨g, hg, hgn, rfl⟩ | rfl
+    · rw [hD4.min, hD3.min, hDd.min] at hm
+      rw [hD4.name, hD3.name, hDd.name] at hleaf
+      have hv := (hval g hg d hd).2
+      have hle := (hadLe g hg d).2
+      have hleaf2 := (hleafQ g.name).mp hleaf
+      have hx := hleafNC g.name hgn hleaf2
+      have h1 := (hoff (fd g) (by rw [hDd.name]; exact hx) (hnnd g hg) d hd).2
+      by_cases hb : IsLeafL s.quotas g.name
+      · have hu := hI.npLeMin g hg hb d hd m hm
+        omega
+      · have := (hexLeaf g hg hgn hb hleaf d hd).2 m hm
+        omega
+    · rw [hD4.min, hD3.min] at hm
+      rw [hD4.name, hD3.name] at hleaf
+      have hb := hleafN ((hleafQ old.name).mp hleaf)
+      rcases hnl.2 d m hm with ⟨m0, hm0, hle⟩
+      have hu := hI.npLeMin old hold.1 hb d hd m0 hm0
+      have h1 := (hon nq hnnq d hd).2
+      have : nq.npUsed d = 0 := rfl
+      omega
 
 end KoordVerif.C03
